@@ -194,6 +194,8 @@ CURATED = [
     ("Setext heading with several words\n===\n\n    indented code stays\n", 8),
     # a backslash before a space is a literal backslash: no line may end there (F78)
     ("a\\ b c and d:\\ e\\\\ f\n\n> - path c:\\ or d:\\ `x\\ y` end\n", 6),
+    # runs of one to five backslashes before the space: odd runs end in a literal backslash, even ones do not
+    ("one\\ two\\\\ three\\\\\\ four\\\\\\\\ five\\\\\\\\\\ six\n", 9),
 ]
 
 
